@@ -255,6 +255,9 @@ def run(ctx):
             n = 1
         elif r_size < 0.1:
             n = int(rng.integers(11, 14))
+        elif r_size < 0.115:
+            n = int(rng.choice([16, 17, 20, 24]))
+            ctx.bucket("wide_interferometer")
         u = make_unitary(rng, fam, n)
         circ = lw.Unitary(u)
         heralded = False
@@ -283,7 +286,63 @@ def run(ctx):
                 ctx.bucket("reck_object_reused")
             else:
                 reck = itf.Reck(em) if em is not None else itf.Reck()
+            refused = 0
+            if rng.random() < 0.2:
+                # requests the object is expected to refuse come first: they may leave no residue in the Reck object or
+                # in its error model (judged by the post-condition on the map that follows and by the fresh twin below)
+                for _ in range(int(rng.integers(1, 3))):
+                    what = str(rng.choice(["map_lossy", "map_non_circuit", "map_bad_seed", "error_model_type", "dist_type",
+                                           "dist_bad_args", "map_after_bad_dist_value"]))
+                    try:
+                        if what == "map_lossy":
+                            lc = lw.Circuit(max(2, n)); lc.bs(0); lc.loss(0, 0.3)
+                            reck.map(lc, seed=seed)
+                        elif what == "map_non_circuit":
+                            reck.map(rng.choice([None, "circuit", 3]) if rng.random() < 0.6 else u, seed=seed)
+                        elif what == "map_bad_seed":
+                            reck.map(circ, seed=rng.choice(["seed", -1, 2.5, 2 ** 40]) if rng.random() < 0.8 else [1])
+                        elif what == "error_model_type":
+                            reck.error_model = rng.choice([None, 0.1, "model"]) if rng.random() < 0.7 else itf.dists.Constant(0.1)
+                        elif what == "dist_type":
+                            setattr(reck.error_model, str(rng.choice(["bs_reflectivity", "loss", "phase_offset"])),
+                                    rng.choice([0.3, "gaussian", None]))
+                        elif what == "dist_bad_args":
+                            r_ = rng.random()
+                            if r_ < 0.3:
+                                itf.dists.Gaussian(0.5, -0.1)
+                            elif r_ < 0.6:
+                                itf.dists.TopHat(0.6, 0.4)
+                            elif r_ < 0.8:
+                                itf.dists.Gaussian(0.5, 0.1, 0.9, 0.1)
+                            else:
+                                itf.dists.Constant("0.5")
+                        else:
+                            # a reflectivity distribution whose values are not reflectivities: the map fails half-way
+                            tmp = itf.ErrorModel(); tmp.bs_reflectivity = itf.dists.Constant(1.7)
+                            old_em = reck.error_model
+                            reck.error_model = tmp
+                            try:
+                                reck.map(circ, seed=seed)
+                            finally:
+                                reck.error_model = old_em
+                        ctx.bucket("odd_request_accepted:" + what)
+                    except Exception as e_:  # noqa: BLE001
+                        refused += 1
+                        ctx.bucket("request_refused:" + what)
+                        case.setdefault("refused_before", []).append(what + ":" + type(e_).__name__)
+                if refused:
+                    ctx.bucket("map_after_refused_request")
             res = reck.map(circ, seed=seed)
+            if refused and noisy and seed is not None:
+                em_f = itf.ErrorModel()
+                for a3 in ("bs_reflectivity", "loss", "phase_offset"):
+                    setattr(em_f, a3, getattr(reck.error_model, a3))
+                r_f = itf.Reck(em_f).map(circ, seed=seed)
+                if circmon.spec_digest(r_f._get_circuit_spec()) != circmon.spec_digest(res._get_circuit_spec()):
+                    ctx.violation("after refused requests, a seeded map differs from the one a freshly built Reck object with "
+                                  "the same three distributions gives", case=case,
+                                  mechanism="reck_seed_after_refused_request:fresh_twin",
+                                  monitor="driver: fresh twin after refused requests")
             if noisy and rng.random() < 0.3:
                 # the same noisy Reck object mapping a second circuit, then the first one again with the same seed
                 other = lw.Unitary(make_unitary(rng, "haar", int(rng.integers(2, 6))))
